@@ -388,6 +388,6 @@ pub fn property() -> Property {
             Sub::enumerated("layout", oracle_layout, enum_layout, true),
             Sub::enumerated("to_str", oracle_tostr, enum_tostr, false),
         ],
-        extra: None,
+        extras: vec![],
     }
 }
